@@ -501,7 +501,7 @@ func redContainerTriples() []string {
 		{"h", []string{"hset h f " + x, "hset h f " + x + " hset h g " + y},
 			[]string{"hset h f " + y, "hset h g " + z, "hset h k " + z, "hset h f " + x, "hdel h g", "hdel h q", "hget h f", "hall h"},
 			"ttl h ex h hall h " + sl + " ttl h ex h hall h"},
-		{"l", []string{"app l " + x, "app l " + x + " app l " + y, "setl l 2 " + x + " " + y + " 0"},
+		{"l", []string{"app l " + x, "app l " + x + " app l " + y, "setl l 2 " + x + " " + y + " 0", "app l " + x + " app l " + y + " app l " + x, "setl l 3 " + x + " " + x + " " + y + " " + strconv.Itoa(longNS)},
 			[]string{"app l " + z, "app l " + x, "rem l " + x, "rem l " + z, "getl l"},
 			"ttl l ex l getl l " + sl + " ttl l ex l getl l"},
 		{"c", []string{"incr c 1", "incr c 1 incr c -1", "incr c 5"},
